@@ -787,7 +787,7 @@ func (e *Engine) checkReturn(ex Exit, fr *Frame, fn *ssa.Function, c *Contract, 
 		// implication introduction: `A ==> B` is proved by assuming A (which may enable lemma instances
 		// whose hypotheses are A) and proving B.
 		if ce, ok := en.Expr.(*ast.CallExpr); ok {
-			if id, ok := ce.Fun.(*ast.Ident); ok && id.Name == "implies" && len(c.Using) > 0 {
+			if id, ok := ce.Fun.(*ast.Ident); ok && id.Name == "implies" && (len(c.Using) > 0 || c.Options["field"]) {
 				st2 := st.fork()
 				env2 := *env
 				env2.st = st2
